@@ -102,10 +102,14 @@ var alphabet = buildAlphabet()
 
 // Family is one exhaustive enumeration: every history of at most Depth letters of Ops.
 type Family struct {
-	Name      string
-	Ops       []int // indices into alphabet
-	Depth     int
-	AbsOnly   bool // only the configurations with an absolute timeout
+	Name    string
+	Ops     []int // indices into alphabet
+	Depth   int
+	AbsOnly bool // only the configurations with an absolute timeout
+	// Ctx: "" = every configuration (fresh and shared RequestCtx); ctxFresh = only the fresh-ctx
+	// ones; ctxSharedAbsOff = all fresh-ctx ones, shared-ctx ones only without AbsoluteTimeout
+	// (buffer reuse and the absolute deadline do not interact; the idle timeout stays in)
+	Ctx       string
 	Symmetric bool // the alphabet is closed under A<->B: histories whose first user is B are skipped
 }
 
@@ -193,11 +197,20 @@ func parseHistory(s string) ([]int, error) {
 	return h, nil
 }
 
-// Cfg is one configuration of the session middleware.
+// Cfg is one configuration of the session middleware and of the server around it.
 type Cfg struct {
 	Source  string // cookie | header | query
 	Storage string // memory | injected
 	Abs     bool
+	// Ctx says on which fasthttp.RequestCtx the requests of a history are served:
+	//   fresh  - a new RequestCtx per request
+	//   shared - all requests of the history on ONE RequestCtx, reset between requests the way
+	//            the fasthttp server does for the next request of a keep-alive connection and,
+	//            through its ctx pool, for the next connection. The request buffers (query
+	//            args, header and cookie values) of one client are then overwritten in place
+	//            by the next client's request, so anything the session code kept that still
+	//            points into them (ids used as storage keys, ...) changes under its feet.
+	Ctx string
 }
 
 func (c Cfg) String() string {
@@ -205,17 +218,49 @@ func (c Cfg) String() string {
 	if c.Abs {
 		a = "on"
 	}
-	return fmt.Sprintf("src=%s storage=%s abs=%s", c.Source, c.Storage, a)
+	return fmt.Sprintf("src=%s storage=%s abs=%s ctx=%s", c.Source, c.Storage, a, c.Ctx)
 }
 
+// allCfgs: the first 12 are the fresh-ctx ones.
 func allCfgs() []Cfg {
 	var out []Cfg
-	for _, s := range []string{"cookie", "header", "query"} {
-		for _, st := range []string{"memory", "injected"} {
-			for _, a := range []bool{false, true} {
-				out = append(out, Cfg{s, st, a})
+	for _, cx := range []string{"fresh", "shared"} {
+		for _, s := range []string{"cookie", "header", "query"} {
+			for _, st := range []string{"memory", "injected"} {
+				for _, a := range []bool{false, true} {
+					out = append(out, Cfg{s, st, a, cx})
+				}
 			}
 		}
 	}
 	return out
+}
+
+const (
+	ctxFresh        = "fresh RequestCtx only"
+	ctxSharedAbsOff = "shared RequestCtx only without AbsoluteTimeout"
+)
+
+// applies reports whether family f enumerates configuration c.
+func (f Family) applies(c Cfg) bool {
+	if f.AbsOnly && !c.Abs {
+		return false
+	}
+	switch f.Ctx {
+	case ctxFresh:
+		return c.Ctx == "fresh"
+	case ctxSharedAbsOff:
+		return c.Ctx == "fresh" || !c.Abs
+	}
+	return true
+}
+
+func (f Family) nCfgs() int {
+	n := 0
+	for _, c := range allCfgs() {
+		if f.applies(c) {
+			n++
+		}
+	}
+	return n
 }
